@@ -163,12 +163,12 @@ fn steps_and_pairs(ctx: &Ctx, tag: &str, count: usize, salt: u64) -> usize {
 }
 
 pub fn run(ctx: &Ctx) -> usize {
-  let wins = day_windows(ctx, 101, 40, 300, 2);
+  let wins = day_windows(ctx, 101, 300, 300, 2);
   let parts = deal(wins, ctx.threads);
   let years: Vec<i64> = if ctx.quick() {
     let mut v: Vec<i64> = vec![-1, 0, 1, 2, 4, 100, 400, 1000, 1500, 1580, 1581, 1582, 1583, 1584, 1599, 1600, 1700, 1800, 1900, 2000, 2023, 2024, 2100, 2400, 9996, 9998, 9999, 10000, 10001];
     let mut rng = ctx.rng(102);
-    for _ in 0..270 {
+    for _ in 0..1500 {
       v.push(rng.range(1, 9999));
     }
     v
@@ -183,7 +183,7 @@ pub fn run(ctx: &Ctx) -> usize {
       hs.push(s.spawn(move || {
         let a = walk(ctx, &format!("walk{:02}", t), w);
         let b = accept(ctx, &format!("acc{:02}", t), ys);
-        let c = steps_and_pairs(ctx, &format!("step{:02}", t), if ctx.quick() { 400 } else { 15000 }, 1000 + t as u64);
+        let c = steps_and_pairs(ctx, &format!("step{:02}", t), if ctx.quick() { 2500 } else { 15000 }, 1000 + t as u64);
         a + b + c
       }));
     }
